@@ -445,6 +445,19 @@ func c17Run(line string) string {
 		r, ct, err := network.GeneralMultipartSerializer(form)
 		return c17WrapStream(r, stub.fault), ct, err
 	}
+	if cfg["nest"] == "1" {
+		// an interceptor that makes a JSON POST of its own (a different body, the library's own serializer) through the same SimpleAPI
+		// before the outer request goes out — a token refresh, say; every request's body must remain its own serializer's output
+		nestedAPI := network.APIMakeDoNewRequestWithBodySerializer[*c17Body, c17Target](api, "POST", "nested", "application/json", network.JSONBodySerializer)
+		nestIcpt := network.Interceptor(func(r *http.Request) error {
+			if r.URL.Path != "/nested" && !strings.HasSuffix(r.URL.Path, "/nested") {
+				var t c17Target
+				nestedAPI(nil, &c17Body{A: "n", N: 9}, &t).Eval()
+			}
+			return nil
+		})
+		sh.AddInterceptor(&nestIcpt)
+	}
 	api.RequestSerializerForJSON = jsonSer
 	api.RequestSerializerForMultipart = mpSer
 	api.ResponseDeserializer = func(b []byte, target interface{}) (interface{}, error) {
@@ -827,6 +840,24 @@ func c17Gen(tier string, rng *rand.Rand, emit func(string)) map[string]interface
 			}
 		}
 	}
+	// 1d. an interceptor making a nested JSON POST (different body) through the same SimpleAPI while the outer request is in flight:
+	// every constructor x body values x faults, evaluated twice
+	for _, ctor := range c17Ctors {
+		kind := c17Kind(ctor)
+		bodies := []string{"nil"}
+		if kind == 1 {
+			bodies = []string{"nil", "j" + hx("outer body that is longer than the nested one") + ":12345", "j" + hx("o") + ":1", "vsv", "vmv"}
+		} else if kind == 2 {
+			bodies = []string{"nil", "f" + hx("f") + "=" + hx("v1")}
+		}
+		for _, b := range bodies {
+			for _, f := range []string{"none", "tx", "read", "dec", "sstream"} {
+				emit("nest=1 " + c17Head(c17Bases[0], c17Headers[2], ctor, "POST", "application/json", "o/{id}") + "call " + hx("id") + "=i1 " + b +
+					" ; eval 0 " + f + " ok" + hx("v") + ":1 ; sent ; eval 0 none ok" + hx("w") + ":2 ; sent ; mut ; dh")
+				exhaustive++
+			}
+		}
+	}
 	// 2. directed: points outside the URL law's side conditions where the result does not depend on map order (<= 1 key)
 	for _, d := range [][2]string{{"{a}/{b}", hx("a") + "=s" + hx("{b}")}, {"{a{b}c}", hx("b") + "=s" + hx("x")}, {"{a}b}", hx("a") + "=s" + hx("{")},
 		{"{{a}}", hx("a") + "=s" + hx("a")}, {"{a", hx("a") + "=s" + hx("1")}, {"{a}{a}", hx("a") + "=s" + hx("{a}")}, {"x{}y", hx("") + "=s" + hx("E")},
@@ -879,7 +910,11 @@ func c17Gen(tier string, rng *rand.Rand, emit func(string)) map[string]interface
 		}
 		count("holes." + strconv.Itoa(nHoles))
 		count("ctor." + ctor)
-		emit(c17Head(c17Bases[rng.Intn(len(c17Bases))], c17Headers[rng.Intn(len(c17Headers))], ctor, m, ct, tmpl) + strings.Join(ops, " ; "))
+		nestTok := ""
+		if rng.Intn(8) == 0 {
+			nestTok = "nest=1 "
+		}
+		emit(nestTok + c17Head(c17Bases[rng.Intn(len(c17Bases))], c17Headers[rng.Intn(len(c17Headers))], ctor, m, ct, tmpl) + strings.Join(ops, " ; "))
 	}
 	return map[string]interface{}{"exhaustive": false, "exhaustive_scope": "11 constructors x 17 faults (serializer error, streaming serializer reader working / breaking, 8 transport error kinds incl. net.Error Temporary/Timeout, read at once / mid-body, decoder) x 0..2 evaluations x 6 default headers x body/nil body; 11 constructors x 9 response-body kinds (incl. a 5 kB one) x 5 status codes x 3 decoder behaviours; 9 body-carrying constructors x 9 body values (nil pointer, struct, nil/empty/filled slice and map, zero struct) x 5 serializer behaviours",
 		"exhaustive_cases": exhaustive, "random_cases": nRandom, "random_distribution": stats,
